@@ -465,6 +465,83 @@ fn scaling(thorough: bool) -> Stats {
     })
 }
 
+/// Assignment operators whose left operand is a computed expression (`r(1) = s(2)`, `(u) += s(2)`): what
+/// such an assignment means is not claimed, but its operands are operands like any other — the left one
+/// is evaluated first, exactly once, then the right one, and the first failure wins.
+fn computed_targets() -> Stats {
+    let mut st = Stats::new();
+    // (source, calls it makes, error class it fails with if any)
+    let lhs: Vec<(&str, Vec<&str>, Option<&str>)> = vec![
+        ("r(1)", vec!["r(I1)"], None),
+        ("(r(1))", vec!["r(I1)"], None),
+        ("(r(1), r(2))", vec!["r(I1)", "r(I2)"], None),
+        ("r(\"x\")", vec!["r(S\"x\")"], None),
+        ("(r(1); \"x\")", vec!["r(I1)"], None),
+        ("(u)", vec![], Some("unknown-variable")),
+        ("typeof(1)", vec!["typeof(I1)"], Some("boom")),
+        ("(r(1), typeof(2))", vec!["r(I1)", "typeof(I2)"], Some("boom")),
+        ("r(1) + (1 / 0)", vec!["r(I1)"], Some("arithmetic")),
+    ];
+    let rhs: Vec<(&str, Vec<&str>, Option<&str>)> = vec![
+        ("s(7)", vec!["s(I7)"], None),
+        ("(s(7), s(8))", vec!["s(I7)", "s(I8)"], None),
+        ("typeof(9)", vec!["typeof(I9)"], Some("boom")),
+        ("s(7) + (1 / 0)", vec!["s(I7)"], Some("arithmetic")),
+        ("s(7) + u", vec!["s(I7)"], Some("unknown-variable")),
+    ];
+    let class_of = |e: &EErr| -> &'static str {
+        match e {
+            EvalexprError::CustomMessage(m) if m == "boom" => "boom",
+            EvalexprError::VariableIdentifierNotFound(_) => "unknown-variable",
+            EvalexprError::DivisionError { .. } => "arithmetic",
+            _ => "other",
+        }
+    };
+    for (l, lcalls, lfail) in &lhs {
+        for (r, rcalls, rfail) in &rhs {
+            for op in ["=", "+=", "-=", "*=", "/=", "%=", "^=", "&&=", "||="] {
+                let src = format!("{} {} {}", l, op, r);
+                let log: Log = Arc::new(Mutex::new(Vec::new()));
+                let mut c = real_context(&[("x", RV::Int(1))], &log);
+                let res = guarded(|| evalexpr::eval_with_context_mut(&src, &mut c));
+                st.evaluations += 1;
+                st.count("computed-assignment-targets");
+                let mut want_calls: Vec<String> = lcalls.iter().map(|s| s.to_string()).collect();
+                let want_err = if lfail.is_some() {
+                    *lfail
+                } else {
+                    want_calls.extend(rcalls.iter().map(|s| s.to_string()));
+                    *rfail
+                };
+                let got_calls = log_keys(&log.lock().unwrap());
+                let (ok, shown) = match &res {
+                    Err(p) => (false, format!("panic at {}: {}", p.location, p.message)),
+                    Ok(r) => {
+                        let class_ok = match (want_err, r) {
+                            (Some(w), Err(e)) => class_of(e) == w,
+                            (Some(_), Ok(_)) => false,
+                            // both operands succeed: what the assignment then does is not claimed
+                            (None, _) => true,
+                        };
+                        (class_ok && got_calls == want_calls, format!("{:?} / call log {:?}", r, got_calls))
+                    },
+                };
+                if !ok {
+                    st.violation(Violation {
+                        property: ID,
+                        kind: "computed-assignment-target-order-mismatch".into(),
+                        input: json!({"axis": "computed-target", "source": src, "context": 1}),
+                        expected: format!("call log {:?}{}", want_calls, want_err.map(|e| format!(", failing with the {} error", e)).unwrap_or_default()),
+                        actual: shown,
+                        test: test_wrap("c08_replay", &ctx_test_src(&[("x", RV::Int(1))], &src, "left operand first, then the right one; first failure wins")),
+                    });
+                }
+            }
+        }
+    }
+    st
+}
+
 pub fn run(cfg: &Cfg) -> Report {
     let (n_hash, n_script2, n_script1) = cfg.tier.pick((3, 1, 2), (3, 2, 3));
     let thorough = cfg.tier == Tier::Thorough;
@@ -478,6 +555,10 @@ pub fn run(cfg: &Cfg) -> Report {
             let mut st = Stats::new();
             for idx in r {
                 let ast = progs::unrank(&counts, &lv, n, idx);
+                // quick tier: programs of the largest size without the comparison operators
+                if n >= 3 && !thorough && progs::has_comparison(&ast) {
+                    continue;
+                }
                 for (ci, vars) in ctxs.iter().enumerate() {
                     // quick tier: the fourth context (x = empty tuple) for programs of <= 2 operator nodes
                     if ci == 3 && n >= 3 && !thorough {
@@ -505,6 +586,7 @@ pub fn run(cfg: &Cfg) -> Report {
         }));
     }
     stats.merge(scaling(cfg.tier == Tier::Thorough));
+    stats.merge(computed_targets());
     for src in ["r (1) + typeof (2) + s (3)", "false && r (1)", "x = 1 ; ( r (x) , x += 1 , s (x) ) ; 1 / 0 ; r (9)"] {
         let log: Log = Arc::new(Mutex::new(Vec::new()));
         let mut c = real_context(&[], &log);
@@ -521,7 +603,7 @@ pub fn run(cfg: &Cfg) -> Report {
     Report {
         property: ID,
         level: "model_checking",
-        rule: format!("axis 1: every program with <= {n_hash} operator nodes over {{x = e, y = e, x += e, x &&= e, r(e), s(e), typeof(e) (a failing user function that shadows a total builtin), -e, e + (missing operand), e + e, e && e, e || e, e / e, (e, e), (e; e)}} and leaves {{1, 0, true, false, x, unbound u, (), 1/0, true+1}} x 4 initial contexts (x unbound / int / boolean / empty tuple; the fourth up to 2 operator nodes in the quick tier) on the real HashMapContext with recording functions, each program through eval_with_context_mut, through the shared-context walker (result and call log against the reference in read-only mode) and, if it has effects, through all 7 typed mutable views (same final variables and call log: evaluated exactly once); axis 2: the same programs (<= {n_script2} operator nodes with <= 2 deviations, <= {n_script1} with <= 1) against a scripted Context whose i-th answer (get_value / call_function / set_value) deviates from the default as chosen by a deviation-bounded depth-first exploration; oracle: reference interpreter driven by the same script (result, final variables, ordered call log with arguments, ordered sequence of context interactions). Plus scaling families: chains, tuples, sums, op-assign sequences and nested arguments of n recording calls for every n in 1..20 and up to 129 (quick) / 1..40 and up to 400 (thorough) with the failing call at every position (chosen positions above 20). States = (program, context) pairs explored on axis 2, transitions = scripted executions. Non-trivial = failing after effects, or >= 2 logged calls, or a deviating script; each (program, context, script) triple is enumerated exactly once, so the counter counts distinct cases"),
+        rule: format!("axis 1: every program with <= {n_hash} operator nodes over {{x = e, y = e, x += e, x &&= e, r(e), s(e), typeof(e) (a failing user function that shadows a total builtin), -e, e + (missing operand), e + e, e && e, e || e, e / e, e < e, e == e (the two comparisons up to 2 operator nodes in the quick tier), (e, e), (e; e)}} and leaves {{1, 0, true, false, x, unbound u, (), 1/0, true+1}} x 4 initial contexts (x unbound / int / boolean / empty tuple; the fourth up to 2 operator nodes in the quick tier) on the real HashMapContext with recording functions, each program through eval_with_context_mut, through the shared-context walker (result and call log against the reference in read-only mode) and, if it has effects, through all 7 typed mutable views (same final variables and call log: evaluated exactly once); axis 2: the same programs (<= {n_script2} operator nodes with <= 2 deviations, <= {n_script1} with <= 1) against a scripted Context whose i-th answer (get_value / call_function / set_value) deviates from the default as chosen by a deviation-bounded depth-first exploration; oracle: reference interpreter driven by the same script (result, final variables, ordered call log with arguments, ordered sequence of context interactions). Plus 405 assignments whose left operand is a computed expression (9 left operands x 5 right operands x 9 assignment operators: left operand's calls, then the right operand's, first failure wins; the meaning of the assignment itself is not claimed). Plus scaling families: chains, tuples, sums, op-assign sequences and nested arguments of n recording calls for every n in 1..20 and up to 129 (quick) / 1..40 and up to 400 (thorough) with the failing call at every position (chosen positions above 20). States = (program, context) pairs explored on axis 2, transitions = scripted executions. Non-trivial = failing after effects, or >= 2 logged calls, or a deviating script; each (program, context, script) triple is enumerated exactly once, so the counter counts distinct cases"),
         nontrivial_set: "counter:nontrivial-distinct",
         exhaustive: true,
         bound_completed: format!("programs of {n_hash} operator nodes; 2 deviations up to {n_script2} nodes, 1 deviation up to {n_script1}"),
@@ -539,6 +621,17 @@ pub fn replay(case: &J) -> i32 {
     let input = &case["input"];
     let src = input["source"].as_str().unwrap_or_else(|| machinery_error("C08 replay: no source"));
     let ci = input["context"].as_u64().unwrap_or(0) as usize;
+    if input["axis"].as_str() == Some("computed-target") {
+        // the family is small: re-run it and report whether the recorded source still fails
+        let st = computed_targets();
+        let hit = st.violations.iter().any(|v| v.input["source"].as_str() == Some(src));
+        let mut only = Stats::new();
+        only.evaluations = 1;
+        if hit {
+            only.violations.extend(st.violations.into_iter().filter(|v| v.input["source"].as_str() == Some(src)));
+        }
+        return super::replay_verdict(ID, &only);
+    }
     let counts = progs::counts(3);
     let lv = progs::leaves();
     let ctxs = progs::initial_contexts();
